@@ -2,5 +2,5 @@ SPECIFICATION Spec
 CONSTANTS
   Tunnels <- MCTunnels
   Kind <- MCKind
-INVARIANTS TypeOK RegistryMutex WriteMutex LoopImpliesRegistered NothingLeftWhenHandlersAreGone AtMostOneDial RelayNeedsConnection ConnectionNeedsRegisteredLoop ConnectionNeedsTheSteps PairingById InOnlyAfterPublish UserIsTheOneItWasOpenedAs ResponseDiscipline
+INVARIANTS TypeOK RegistryMutex WriteMutex LoopImpliesRegistered NothingLeftWhenHandlersAreGone AtMostOneDial RelayNeedsConnection ConnectionNeedsRegisteredLoop ConnectionNeedsTheSteps PairingById InOnlyAfterPublish UserIsTheOneItWasOpenedAs ResponseDiscipline NoWriterBeforeTheAccept
 CHECK_DEADLOCK FALSE
